@@ -517,9 +517,15 @@ def _inline_new_yielders(tree, ref_funcs, done):
                         if isinstance(x, ast.Try):
                             for h in x.handlers:
                                 yield from own_jumps(h.body)
-                if list(own_jumps(st.body)):
-                    ok_all = False
-                    break
+                jumps = list(own_jumps(st.body))
+                if jumps:
+                    # `continue` is harmless when the helper's single yield is the last thing an iteration of the helper's own
+                    # innermost loop does (resuming the generator only moves on to the next iteration: that is what `continue` of
+                    # the merged loop does); `break` needs, in addition, that nothing of the helper follows that loop
+                    tail = _yield_tail(helper_body, ystmt[0]) if len(ystmt) == 1 else None
+                    if tail is None or (any(isinstance(j, ast.Break) for j in jumps) and tail != 'last'):
+                        ok_all = False
+                        break
             plans.append((caller, lst, st, call, bind))
         if not ok_all:
             continue
@@ -528,8 +534,21 @@ def _inline_new_yielders(tree, ref_funcs, done):
             stored = {n.id for s_ in body for n in ast.walk(s_) if isinstance(n, ast.Name) and isinstance(n.ctx, (ast.Store, ast.Del))}
             caller_names = _all_names(caller)
             mapping = {}
+            # the helper yields one of its own variables and the loop receives it in T: the two are ONE variable of the merged loop
+            # when T lives only in this loop, is not re-bound by the block, and the helper has no other use for the name T
+            same = None
+            if not is_cm and len(ys) == 1 and isinstance(ys[0].value, ast.Name) and ys[0].value.id in stored - set(bind):
+                T = st.target.id
+                in_st = sum(1 for x in ast.walk(st) if isinstance(x, ast.Name) and x.id == T)
+                in_caller = sum(1 for x in ast.walk(caller) if isinstance(x, ast.Name) and x.id == T)
+                blk_stores = any(isinstance(x, ast.Name) and x.id == T and isinstance(x.ctx, (ast.Store, ast.Del)) for b_ in st.body for x in ast.walk(b_))
+                helper_names = {x.id for s_ in body for x in ast.walk(s_) if isinstance(x, ast.Name)}
+                v = ys[0].value.id
+                if in_st == in_caller and not blk_stores and (T == v or T not in helper_names):
+                    same = v
+                    mapping[v] = T
             for nm in stored - set(bind):
-                if nm in caller_names:
+                if nm in caller_names and nm != same:
                     mapping[nm] = nm + '__inl'
             pre = []
             for p_, arg in bind.items():
@@ -581,6 +600,47 @@ def _inline_new_yielders(tree, ref_funcs, done):
             lst[i:i + 1] = new
             done.append((caller.name, helper.name, '<new %s inlined around the block it served>' % ('context manager' if is_cm else 'generator')))
         home.remove(helper)
+
+
+def _yield_tail(body, ystmt):
+    """None, 'tail' or 'last': the yield statement is in tail position of an iteration of the innermost loop around it (only `if`
+    arms between the loop body and the yield, each time as the last statement); 'last' when that loop is also the last top-level
+    statement of the helper."""
+    def find(stmts, chain):
+        for i, x in enumerate(stmts):
+            if x is ystmt:
+                return chain + [(stmts, i, x)]
+            subs = []
+            for field in ('body', 'orelse', 'finalbody'):
+                sub = getattr(x, field, None)
+                if isinstance(sub, list) and sub and isinstance(sub[0], ast.stmt):
+                    subs.append(sub)
+            if isinstance(x, ast.Try):
+                subs += [h.body for h in x.handlers]
+            for sub in subs:
+                r = find(sub, chain + [(stmts, i, x)])
+                if r:
+                    return r
+        return None
+    chain = find(body, [])
+    if not chain:
+        return None
+    # walk upwards from the yield to the innermost loop
+    k = len(chain) - 1
+    while k >= 0:
+        stmts, i, x = chain[k]
+        if k < len(chain) - 1 and isinstance(x, (ast.For, ast.While)):
+            inner = chain[k + 1][0]
+            if inner is not x.body:
+                return None
+            top_last = k == 0 and i == len(stmts) - 1
+            return 'last' if top_last else 'tail'
+        if k < len(chain) - 1 and not isinstance(x, ast.If):
+            return None
+        if i != len(stmts) - 1:
+            return None
+        k -= 1
+    return None
 
 
 def _unguard(stmts):
@@ -1185,8 +1245,10 @@ def _truth(e):
         elif const(o, True):
             r = ast.BoolOp(op=ast.Or(), values=[ast.UnaryOp(op=ast.Not(), operand=t), b])
         else:
-            e.test, e.body, e.orelse = t, b, o
-            return e
+            # the general form, for its truth value only: `B if T else O` is `T and B or not T and O` (T is read twice, which matters
+            # to nobody: the tree is analysed, not run)
+            r = ast.BoolOp(op=ast.Or(), values=[ast.BoolOp(op=ast.And(), values=[t, b]),
+                                                ast.BoolOp(op=ast.And(), values=[ast.UnaryOp(op=ast.Not(), operand=copy.deepcopy(t)), o])])
         return ast.fix_missing_locations(ast.copy_location(r, e))
     if isinstance(e, ast.BoolOp):
         e.values = [_truth(v) for v in e.values]
